@@ -14,6 +14,9 @@ Sig(e) == SetOf(e.sigma)
 CallOK(e) == WEq(e.sr, AWeight(e.sr, e.M, e.s), e.res)
 TotalOK(e) == WEq(e.sr, ATotal(e.sr, e.M), e.res)
 
+(* the library's own evaluation of the machine it has just built, on a few strings *)
+CallsOK(e) == ~Has(e, "calls") \/ \A i \in DOMAIN e.calls : WEq(e.sr, AWeight(e.sr, e.out, e.calls[i][1]), e.calls[i][2])
+
 (* threshold(t): initial weights, arcs and final weights whose absolute value is below t are dropped *)
 RAbs(w) == IF w[1] < 0 THEN RNeg(w) ELSE w
 KeepT(w, t) == ~RLt(RAbs(w), t)
@@ -174,6 +177,7 @@ Failed(e) ==
   CASE e.op = "wcall" -> IF CallOK(e) THEN {} ELSE {"pathsum"}
     [] e.op = "wtotal" -> IF TotalOK(e) THEN {} ELSE {"total"}
     [] e.op = "wop" -> (IF OpWeightsOK(e) THEN {} ELSE {IF e.fn = "threshold" THEN "threshold-conformance" ELSE "language"})
+                       \cup (IF CallsOK(e) THEN {} ELSE {"pathsum"})
                        \cup FailedPostsA(e) \cup (IF DetSizeOK(e) THEN {} ELSE {"detsize-conformance"})
     [] e.op = "wlang" -> IF LangOK(e) THEN {} ELSE {"language"}
     [] e.op = "tocfg" -> IF ToCfgOK(e) THEN {} ELSE {"tocfg"}
